@@ -1365,7 +1365,7 @@ impl StorageEngine {
                         *list = new_list;
                     } else {
                         let mut new_list = VecDeque::new();
-                        let mut to_remove = (-count) as usize;
+                        let mut to_remove = count.unsigned_abs() as usize; // (negating the most negative count overflows)
                         
                         for item in list.drain(..).rev() {
                             if item == element && to_remove > 0 {
